@@ -61,6 +61,7 @@ from .parse import (
 from .search import IMAPSearch, SearchContext
 from .utils import (
     MsgSet,
+    clip_uid_set,
     compact_sequence,
     expand_sequence,
     sequence_set_to_list,
@@ -620,6 +621,7 @@ class Mailbox:
 
         if from_uids:
             seq_max = self.uids[-1] if self.uids else 1
+            msg_set = clip_uid_set(msg_set, seq_max)
         else:
             seq_max = self.num_msgs
 
@@ -2633,7 +2635,7 @@ class Mailbox:
                     # max uid for the sequence max.
                     #
                     uid_list = sequence_set_to_list(
-                        msg_set, uid_max, uid_command
+                        clip_uid_set(msg_set, uid_max), uid_max, uid_command
                     )
 
                     # We want to convert this list of UID's in to message
